@@ -1,6 +1,14 @@
 package main
 
 import (
+	"crypto/sha1"
+	"encoding/hex"
+	"fmt"
+	"math/rand"
+	"os"
+	"path/filepath"
+
+	"verif/harness/formats"
 	"verif/harness/run"
 	"verif/harness/world"
 )
@@ -15,6 +23,48 @@ type focusEvent struct {
 	Ev  string      `json:"ev"`
 	W   string      `json:"W"`
 	Obs run.ListObs `json:"obs"`
+}
+
+type formatEvent struct {
+	Ev       string       `json:"ev"`
+	Cmd      string       `json:"cmd"`
+	Fmt      string       `json:"fmt"`
+	Exposure bool         `json:"exposure"`
+	Outcome  string       `json:"outcome"`
+	FmtErr   string       `json:"fmtErr"`
+	API      formats.Rows `json:"api"`
+	Out      formats.Rows `json:"out"`
+	Nodes    []string     `json:"nodes"`
+}
+
+type diffFormatEvent struct {
+	Ev      string           `json:"ev"`
+	Fmt     string           `json:"fmt"`
+	Outcome string           `json:"outcome"`
+	API     formats.DiffRows `json:"api"`
+	Out     formats.DiffRows `json:"out"`
+}
+
+var listFormats = []string{"txt", "json", "csv", "md", "dot"}
+var diffFormats = []string{"txt", "csv", "md", "dot"}
+
+func hasAdmin(w *world.World) bool { return len(w.Anps) > 0 || !w.Banp.Nil }
+
+type detRun struct {
+	Layout string `json:"layout"`
+	Key    string `json:"key"` // cmd/format/exposure
+	Hash   string `json:"hash"`
+	Out    string `json:"out"` // the output itself, only kept for the first two distinct variants of a key
+}
+
+type detEvent struct {
+	Ev   string   `json:"ev"`
+	Runs []detRun `json:"runs"`
+}
+
+func sha(s string) string {
+	h := sha1.Sum([]byte(s))
+	return hex.EncodeToString(h[:8])
 }
 
 type evalEvent struct {
@@ -47,6 +97,106 @@ func runExtraOps(em *emitter, dir, wdir string, c Case, conc *world.Conc, cseed 
 			n++
 			obs, _, _ := run.List(wdir, w, conc, run.ListOpts{Focus: W})
 			em.emit(focusEvent{Ev: "Focus", W: W, Obs: obs})
+		}
+	}
+	if ops["determinism"] {
+		ev := detEvent{Ev: "Determinism", Runs: []detRun{}}
+		variants := map[string]map[string]bool{}
+		add := func(layout, key, out string) {
+			h := sha(out)
+			r := detRun{Layout: layout, Key: key, Hash: h}
+			if variants[key] == nil {
+				variants[key] = map[string]bool{}
+			}
+			if !variants[key][h] && len(variants[key]) < 2 {
+				r.Out = out
+				if len(r.Out) > 4000 {
+					r.Out = r.Out[:4000]
+				}
+			}
+			variants[key][h] = true
+			ev.Runs = append(ev.Runs, r)
+		}
+		lr := rand.New(rand.NewSource(cseed))
+		nl := 4
+		for li := 0; li < nl; li++ {
+			ldir := filepath.Join(dir, fmt.Sprintf("lay%d", li))
+			os.RemoveAll(ldir)
+			lw := w
+			var lseed int64 = -1
+			if li == 1 {
+				lseed = cseed + 1
+			}
+			if li >= 2 {
+				lw = world.PermuteUnordered(w, lr)
+				lseed = lr.Int63()
+			}
+			if err := conc.WriteWorld(ldir, lw, lseed); err != nil {
+				panic(err)
+			}
+			lname := fmt.Sprintf("L%d", li)
+			for _, exposure := range []bool{false, true} {
+				if exposure && hasAdmin(w) {
+					continue
+				}
+				for _, f := range listFormats {
+					for rep := 0; rep < 2; rep++ {
+						obs, out, _ := run.List(ldir, lw, conc, run.ListOpts{Exposure: exposure, Format: f})
+						if obs.Outcome != "ok" {
+							out = "OUTCOME:" + obs.Outcome + ":" + obs.ErrClass
+						}
+						add(lname, fmt.Sprintf("list/%s/%v", f, exposure), out)
+					}
+				}
+			}
+			if c.Chain && gs.prevDir != "" {
+				for _, f := range diffFormats {
+					d, out := run.Diff(gs.prevDir, ldir, lw, conc, false, f)
+					if d.Outcome != "ok" {
+						out = "OUTCOME:" + d.Outcome + ":" + d.ErrClass
+					}
+					add(lname, "diff/"+f, out)
+				}
+			}
+		}
+		em.emit(ev)
+	}
+	if ops["formats"] {
+		for _, exposure := range []bool{false, true} {
+			if exposure && hasAdmin(w) {
+				continue // exposure analysis is disabled with admin policies by design
+			}
+			for _, f := range listFormats {
+				obs, out, ferr := run.List(wdir, w, conc, run.ListOpts{Exposure: exposure, Format: f})
+				ev := formatEvent{Ev: "Format", Cmd: "list", Fmt: f, Exposure: exposure, Outcome: obs.Outcome, FmtErr: ferr, Nodes: []string{}}
+				ev.API = run.APIRows(&obs, exposure)
+				if obs.Outcome == "ok" {
+					ev.Out, ev.Nodes = run.ParseList(f, out, exposure, w)
+				} else {
+					ev.Out = formats.NewRows()
+				}
+				em.emit(ev)
+			}
+		}
+		if c.Chain && gs.prevDir != "" {
+			for _, f := range diffFormats {
+				d, out := run.Diff(gs.prevDir, wdir, w, conc, false, f)
+				ev := diffFormatEvent{Ev: "DiffFormat", Fmt: f, Outcome: d.Outcome, API: run.APIDiffRows(&d)}
+				switch f {
+				case "txt":
+					ev.Out = formats.ParseDiffTxt(out)
+				case "csv":
+					ev.Out = formats.ParseDiffCSV(out)
+				case "md":
+					ev.Out = formats.ParseDiffMD(out)
+				case "dot":
+					ev.Out = formats.ParseDiffDot(out)
+				}
+				if f != "dot" {
+					ev.Out.Rows = run.CanonDiffInfo(ev.Out.Rows)
+				}
+				em.emit(ev)
+			}
 		}
 	}
 	if ops["diff"] {
